@@ -48,12 +48,12 @@ extern "C" int vf_run_case(const uint8_t * data, size_t size)
    vf::BS bs(data, size);
    const int NT = 1+bs.u8()%3; const uint32 maxPool = bs.u8()%5;
    std::vector<std::vector<Op> > scripts(NT);
-   for (int t=0; t<NT; t++) {const uint32 n = 2+bs.u8()%7; for (uint32 i=0; i<n; i++) {Op o; o.op = bs.u8()%20; if (o.op >= 15) {static const uint8_t again[5] = {12, 14, 11, 15, 15}; o.op = again[o.op-15];} o.a = bs.u8()%3; o.b = bs.u8()%3; scripts[t].push_back(o);}}
+   for (int t=0; t<NT; t++) {const uint32 n = 2+bs.u8()%7; for (uint32 i=0; i<n; i++) {Op o; o.op = bs.u8()%22; if (o.op >= 15) {static const uint8_t again[7] = {12, 14, 11, 15, 15, 16, 16}; o.op = again[o.op-15];} o.a = bs.u8()%3; o.b = bs.u8()%3; scripts[t].push_back(o);}}
    char desc[120]; snprintf(desc, sizeof(desc), "%d thread(s), ObjectPool<Obj,128> maxPoolSize=%u", NT, maxPool);
    if (vf::Verbose()) fprintf(stderr, "config: %s\n", desc);
 
    g_ctor = g_dtor = 0; g_doubleReleases = 0;
-   uint32 genCounter = 1; uint32 crossThreadFinalRelease = 0, obtained = 0, heapObjs = 0, nonCountingPromoted = 0, drains = 0; uint64_t switches = 0, preempt = 0; std::vector<uint8_t> trace;
+   uint32 genCounter = 1; uint32 crossThreadFinalRelease = 0, obtained = 0, heapObjs = 0, nonCountingPromoted = 0, drains = 0, neutralized = 0; uint64_t switches = 0, preempt = 0; std::vector<uint8_t> trace;
    {
       vsched::ByteSource src(bs, 0x80); vsched::Scheduler sc(src); sc.SetContext(desc);
       Pool pool(maxPool);
@@ -121,6 +121,12 @@ extern "C" int vf_run_case(const uint8_t * data, size_t size)
                }
                break;
                case 15: {uint32 n = 0; pool.Drain(&n); drains++;} break;                                                             // flush the pool's spare slabs in mid-history (documented thread-safe); slabs with objects in use must stay
+               case 16:                                                                                                              // Neutralize(): the reference lets go of its count without ever releasing the object -- so only while another counting reference of this thread keeps it (no leak of the script's own making)
+               {
+                  int j = -1; for (int i=0; i<3; i++) if ((i != a)&&(mine[i]())&&(counting[i])&&(mine[i]() == mine[a]())) j = i;
+                  if ((mine[a]())&&(counting[a])&&(j >= 0)) {mine[a].Neutralize(); expect[a] = 0; counting[a] = true; neutralized++; if (mine[a]() != NULL) vf::Fail("a neutralized Ref still points at an object");}
+               }
+               break;
                case 14: if ((mine[a]())&&(counting[a] == false)) {mine[a].SetRef(mine[a](), true); counting[a] = true; nonCountingPromoted++;} break;    // start counting in place
             }
             // a non-counting reference may only be kept while a counting one of this thread holds the object
@@ -157,8 +163,8 @@ extern "C" int vf_run_case(const uint8_t * data, size_t size)
 
    vf::Count("context_switches", switches); vf::Count("preemptions", preempt); vf::Count("objects_obtained", obtained); vf::Count("heap_objects", heapObjs);
    vf::Count((NT == 1) ? "case_single_threaded_history" : "case_multi_threaded");
-   if (crossThreadFinalRelease) vf::Count("case_final_release_by_another_thread"); if (nonCountingPromoted) vf::Count("case_non_counting_reference_switched_to_counting"); if (drains) vf::Count("case_pool_drained_in_mid_history");
+   if (crossThreadFinalRelease) vf::Count("case_final_release_by_another_thread"); if (nonCountingPromoted) vf::Count("case_non_counting_reference_switched_to_counting"); if (drains) vf::Count("case_pool_drained_in_mid_history"); if (neutralized) vf::Count("case_reference_neutralized");
    const bool nontrivial = (NT == 1) ? (obtained >= 2) : ((preempt >= 1)&&(crossThreadFinalRelease >= 1));
-   if (nontrivial) {uint64_t h = vf::HashStr(desc); for (size_t i=0; i<trace.size(); i++) h = vf::HashMix(h, trace[i]); for (int t=0; t<NT; t++) h = vf::Hash64(&scripts[t][0], scripts[t].size()*sizeof(Op), h); vf::NonTrivial(h); if (vf::WantSample()) {static const char * const N[] = {"copy", "reset", "obtain(pool)", "obtain(heap)", "swap", "publish", "take", "move-rotate", "const-cast", "temporaries", "clear-mailbox", "non-counting-ref", "assign-counting-to-non-counting", "stop-counting", "start-counting", "drain-pool"}; std::string s = std::string(desc)+":"; for (int t=0; t<NT; t++) {s += " T"+std::to_string(t)+"["; for (size_t k=0; k<scripts[t].size(); k++) {s += N[scripts[t][k].op]; s += " ";} s += "]";} vf::Sample(s+" | "+std::to_string(switches)+" switches, "+std::to_string(preempt)+" preemptions");}}
+   if (nontrivial) {uint64_t h = vf::HashStr(desc); for (size_t i=0; i<trace.size(); i++) h = vf::HashMix(h, trace[i]); for (int t=0; t<NT; t++) h = vf::Hash64(&scripts[t][0], scripts[t].size()*sizeof(Op), h); vf::NonTrivial(h); if (vf::WantSample()) {static const char * const N[] = {"copy", "reset", "obtain(pool)", "obtain(heap)", "swap", "publish", "take", "move-rotate", "const-cast", "temporaries", "clear-mailbox", "non-counting-ref", "assign-counting-to-non-counting", "stop-counting", "start-counting", "drain-pool", "neutralize"}; std::string s = std::string(desc)+":"; for (int t=0; t<NT; t++) {s += " T"+std::to_string(t)+"["; for (size_t k=0; k<scripts[t].size(); k++) {s += N[scripts[t][k].op]; s += " ";} s += "]";} vf::Sample(s+" | "+std::to_string(switches)+" switches, "+std::to_string(preempt)+" preemptions");}}
    return 0;
 }
